@@ -47,6 +47,12 @@ func (e *exec) gauge(name string) (float64, bool) {
 func (e *exec) countersVsContents(where string) {
 	h := e.db.Head()
 	walk := h.SimRecount()
+	if debugOn {
+		fmt.Printf("DBG   gauges: series=%d stale=%d hist=%d buckets=%d\n", h.NumSeries(), h.NumStaleSeries(), h.NumNativeHistogramSeries(), h.NumNativeHistogramBuckets())
+		for _, s := range walk {
+			fmt.Printf("DBG     %s hist=%v stale=%v buckets=%d chunks=%d/%d/%d/%d\n", s.Labels, s.LastIsHist, s.LastIsStale, s.LastBuckets, s.InOrderMmap, s.InOrderHead, s.OOOMmap, s.OOOHead)
+		}
+	}
 	e.res.Evals++
 	fail := func(sig, format string, a ...any) {
 		e.fail("counters-vs-contents", sig, "%s: "+format, append([]any{where}, a...)...)
@@ -75,7 +81,7 @@ func (e *exec) countersVsContents(where string) {
 		fail("query-error", "head query failed: %v", err)
 		return
 	}
-	stale, hist, buckets := 0, 0, 0
+	stale, hist, buckets, bucketsLo := 0, 0, 0, 0
 	amb := false
 	for _, s := range walk {
 		smp := res[s.Labels.String()]
@@ -90,23 +96,26 @@ func (e *exec) countersVsContents(where string) {
 			if s.LastIsHist {
 				hist++
 				buckets += s.LastBuckets
+				bucketsLo += s.LastBuckets
 			}
 			continue
 		}
 		last := smp[len(smp)-1]
-		// bucket counts are those of the histogram as appended (chunk encoding may widen the layout): take the
-		// model's copy of the newest in-order sample when it is the same sample
-		for _, ms := range e.m.Series {
-			if ms.Labels.String() == s.Labels.String() && ms.Last != nil && ms.Last.T == last.T && ms.Last.Kind == last.Kind {
-				last = *ms.Last
-			}
-		}
 		if last.IsStale() {
 			stale++
 		}
 		if last.Kind != 0 {
 			hist++
-			buckets += last.NumBuckets()
+			// The statement does not say whether explicitly stored empty buckets count: the recount gives the
+			// range [populated buckets, bucket slots of the stored sample or of the sample as appended].
+			hi := last.NumBuckets()
+			for _, ms := range e.m.Series {
+				if ms.Labels.String() == s.Labels.String() && ms.Last != nil && ms.Last.T == last.T && ms.Last.Kind == last.Kind && ms.Last.NumBuckets() > hi {
+					hi = ms.Last.NumBuckets()
+				}
+			}
+			buckets += hi
+			bucketsLo += last.NonZeroBuckets()
 		}
 	}
 	_ = amb
@@ -118,8 +127,8 @@ func (e *exec) countersVsContents(where string) {
 		fail("histogram-series", "NumNativeHistogramSeries()=%d but %d head series end in a native histogram", got, hist)
 		return
 	}
-	if got := h.NumNativeHistogramBuckets(); got != uint64(buckets) {
-		fail("histogram-buckets", "NumNativeHistogramBuckets()=%d but the newest histograms of the head series hold %d buckets", got, buckets)
+	if got := h.NumNativeHistogramBuckets(); got > uint64(buckets) || got < uint64(bucketsLo) {
+		fail("histogram-buckets", "NumNativeHistogramBuckets()=%d but the newest histograms of the head series hold between %d (populated) and %d (slots) buckets", got, bucketsLo, buckets)
 		return
 	}
 	open := 0
